@@ -8,7 +8,7 @@ import { shallow } from "../lib/localise.mjs";
 import { show, valueClass, toEjson, fromEjson } from "../lib/ejson.mjs";
 import { splitProgram, breakLink, counterpart, exportWalk } from "../gen/split.mjs";
 import { renderProgram } from "../gen/ast.mjs";
-import { nameHashDifference } from "../lib/rtdiff.mjs";
+import { nameHashDifference, isRecursiveParser } from "../lib/rtdiff.mjs";
 import { loadModule, buildAll, ALL_SETTINGS } from "../lib/loader.mjs";
 import { isCyclic } from "../lib/deep.mjs";
 import { coreKinds } from "../gen/typegen.mjs";
@@ -206,7 +206,7 @@ export async function run(ctx) {
       }
       if (h1 !== h2) {
         let cause = nameHashDifference(p1, p2);
-        if (cause === "identical-modulo-refs" && coreKinds(prog.env, core).has("recursive")) cause += ":recursive";
+        if (cause === "identical-modulo-refs" && (coreKinds(prog.env, core).has("recursive") || isRecursiveParser(p1))) cause += ":recursive";
         ctx.violation({ signature: `hash256-differs|${cause}`, clause: "digest-differs", detail: `parser ${ps.name}: ${h1.slice(0, 16)} vs ${h2.slice(0, 16)}`, replay: { ...where, parser: ps.name } });
       }
     }
